@@ -11,6 +11,8 @@ import (
 	"path/filepath"
 	"regexp"
 	"strings"
+	"syscall"
+	"time"
 	"unicode/utf8"
 
 	"github.com/apparentlymart/go-textseg/v15/textseg"
@@ -789,6 +791,9 @@ func (o *oracle) fileRoute(src []byte, bufOK bool, in string) {
 		return
 	}
 	o.cx.Res.Count("file-route")
+	if o.fileN%128 == 0 {
+		defer o.pipeRoute(src, bufOK, in)
+	}
 	for _, x := range []struct {
 		name string
 		ok   bool
@@ -805,6 +810,55 @@ func (o *oracle) fileRoute(src []byte, bufOK bool, in string) {
 			o.fail(lib.Failure{Kind: "oracle", Key: key, Desc: fmt.Sprintf("%s on a file accepts=%v, json.Parse on the same bytes accepts=%v", x.name, x.ok, bufOK), Input: in, Impl: lib.Trunc(x.d.Error(), 300)})
 			return
 		}
+	}
+}
+
+// pipeRoute: the same through a named pipe — a path whose reported size says nothing about its content (a
+// pipe, /dev/stdin, process substitution, a file still being written): the whole content must be read.
+func (o *oracle) pipeRoute(src []byte, bufOK bool, in string) {
+	if o.tmpDir == "" || len(src) > 60000 {
+		return
+	}
+	path := filepath.Join(o.tmpDir, fmt.Sprintf("pipe-%d.json", o.fileN))
+	if err := syscall.Mkfifo(path, 0o600); err != nil {
+		o.cx.Res.Count("pipe-route:mkfifo-unavailable")
+		return
+	}
+	defer os.Remove(path)
+	done := make(chan struct{})
+	go func() {
+		defer close(done)
+		f, err := os.OpenFile(path, os.O_WRONLY, 0)
+		if err != nil {
+			return
+		}
+		// two writes, so that a single read does not see everything
+		half := len(src) / 2
+		f.Write(src[:half])
+		f.Write(src[half:])
+		f.Close()
+	}()
+	var d1 hcl.Diagnostics
+	ok := o.guard("parse-file-from-pipe", func() { _, d1 = hcljson.ParseFile(path) })
+	select {
+	case <-done:
+	case <-time.After(5 * time.Second):
+		// the reader never opened the pipe: unblock the writer
+		if f, err := os.OpenFile(path, os.O_RDONLY|syscall.O_NONBLOCK, 0); err == nil {
+			f.Close()
+		}
+		<-done
+	}
+	if !ok {
+		return
+	}
+	o.cx.Res.Count("pipe-route")
+	if got := !d1.HasErrors(); got != bufOK {
+		key := "parse-file-route:pipe:rejects-what-parse-accepts"
+		if got {
+			key = "parse-file-route:pipe:accepts-what-parse-rejects"
+		}
+		o.fail(lib.Failure{Kind: "oracle", Key: key, Desc: fmt.Sprintf("json.ParseFile on a named pipe accepts=%v, json.Parse on the same bytes accepts=%v", got, bufOK), Input: in, Impl: lib.Trunc(d1.Error(), 300)})
 	}
 }
 
